@@ -189,3 +189,113 @@ CONTRACTS["optimization:Optimization.get_initialization#bounds_check"] = dict(
         ("C14+C15.bounds_are_recorded_for_the_optimiser", "xmin[0] == lo and xmax[0] == hi and ptr == 1"),
     ],
     defined_props=["C14", "C15"])
+
+
+# ---- TotalSpendConstraint.constrain_instructions (C14, first sentence): the body of the loop over constrained years, for two programs
+# that both have a spending series.  constrain_sum_bounded is seen through ITS contract (the ghost X1 with the clauses
+# C14.within_bounds and C14.sum_meets_total_within_code_tolerance assumed in `requires`; the callee is verified against them above);
+# what is proved here is the wiring around it: the proposal handed over is the current spending at THAT year in program order, each
+# program's bounds travel with its amount, and the rescaled amounts are written back to the right program at the right year -- so
+# the instructions end up within every bound and adding up to the total.
+def _env_constrain(it):
+    from pyvc.interp import PyObjV
+    from pyvc.core import LArr
+    from pyvc import source
+
+    om, um = source.load("optimization"), source.load("utils")
+    T = 2020.0
+    cur = [z3.Real("cur_%d" % i) for i in range(2)]
+    other = [z3.Real("other_%d" % i) for i in range(2)]
+    lo = [z3.Real("lo_%d" % i) for i in range(2)]
+    hi = [z3.Real("hi_%d" % i) for i in range(2)]
+    x1 = [z3.Real("X1_%d" % i) for i in range(2)]
+    ts = lambda i: PyObjV("TimeSeries", um, {"t": [T, 2030.0], "vals": [cur[i], other[i]], "units": "$", "assumption": None, "sigma": None, "_sampled": False})
+    instructions = PyObjV("ProgramInstructions", source.load("programs"), {"alloc": {"a": ts(0), "b": ts(1)}})
+    hc = {"programs": {T: ["a", "b"]}, "bounds": {T: {"a": (lo[0], hi[0]), "b": (lo[1], hi[1])}}}
+    return {"self": PyObjV("TotalSpendConstraint", om, {}), "instructions": instructions, "hard_constraints": hc, "t": T, "penalty": z3.Real("penalty0"), "penalty0": z3.Real("penalty0"),
+            "X1": LArr(2, it._list_reader(x1)), "x1": x1, "cur": cur, "other": other, "lo": lo, "hi": hi, "optimization": None, "USED": {}}
+
+
+def _ghost_csb(it, x, s, lb, ub):
+    it.live_env["USED"].update({"x": x, "s": s, "lb": lb, "ub": ub})
+    return it.ghost_env["X1"]
+
+
+CONTRACTS["optimization:TotalSpendConstraint.constrain_instructions#one_year_two_programs"] = dict(
+    schema=schema, fragment={"iter": "hard_constraints['initial_total_spend'].items()"}, make_env=_env_constrain,
+    ghost_params={"TOTAL": "real", "NORM": "real"},
+    stubs={"sc.promotetoarray(total_spend).ravel()[0]": "TOTAL", "np.linalg.norm(x1_array - x0_array)": "NORM"},
+    call_stubs={"constrain_sum_bounded": _ghost_csb},
+    # the callee's ensures
+    requires=["all(x1[i] >= lo[i] and x1[i] <= hi[i] for i in range(2))", "abs(x1[0] + x1[1] - TOTAL) <= 1e-08 + 1e-05 * TOTAL", "TOTAL >= 0"],
+    ensures=[
+        ("C14.proposal_is_the_current_spending_of_that_year_in_program_order", "len(USED['x']) == 2 and USED['x'][0] == cur[0] and USED['x'][1] == cur[1] and USED['s'] == TOTAL"),
+        ("C14.each_program_travels_with_its_own_bounds", "len(USED['lb']) == 2 and len(USED['ub']) == 2 and all(USED['lb'][i] == lo[i] and USED['ub'][i] == hi[i] for i in range(2))"),
+        ("C14.rescaled_amounts_are_written_to_their_program_at_that_year", "instructions.alloc['a'].get(2020.0) == x1[0] and instructions.alloc['b'].get(2020.0) == x1[1]"),
+        ("C14.instructions_end_up_within_every_bound_and_on_the_total",
+         "all(instructions.alloc[p].get(2020.0) >= lo[i] and instructions.alloc[p].get(2020.0) <= hi[i] for i, p in enumerate(['a', 'b'])) and abs(instructions.alloc['a'].get(2020.0) + instructions.alloc['b'].get(2020.0) - TOTAL) <= 1e-08 + 1e-05 * TOTAL"),
+        ("C14.other_years_are_left_alone", "instructions.alloc['a'].get(2030.0) == other[0] and instructions.alloc['b'].get(2030.0) == other[1] and len(instructions.alloc['a'].t) == 2 and len(instructions.alloc['b'].t) == 2"),
+        ("C14.penalty_grows_by_the_distance_moved", "penalty == penalty0 + TOTAL * NORM"),
+    ],
+    defined_props=["C14"])
+
+
+def _replay_constrain(model, contract):
+    """replay on a REAL TotalSpendConstraint, real ProgramInstructions-like allocations (real TimeSeries) and the real
+    constrain_sum_bounded: the solver's values first, then a small catalogue of feasible proposals; after the call the two
+    amounts at the year must lie within their bounds and add up to the total, unless the code signalled that it cannot be done"""
+    import numpy as np
+    import atomica.optimization as ao
+    import atomica.utils as au
+
+    def val(name):
+        v = model.eval(z3.Real(name), model_completion=True)
+        try:
+            return float(v.numerator_as_long()) / float(v.denominator_as_long())
+        except Exception:
+            v = v.approx(12)
+            return float(v.numerator_as_long()) / float(v.denominator_as_long())
+
+    cases = []
+    try:
+        cases.append(([val("cur_0"), val("cur_1")], [val("lo_0"), val("lo_1")], [val("hi_0"), val("hi_1")], val("TOTAL")))
+    except Exception:
+        pass
+    cases += [([30.0, 70.0], [10.0, 60.0], [35.0, 100.0], 100.0), ([50.0, 50.0], [0.0, 70.0], [40.0, 90.0], 110.0), ([10.0, 20.0], [5.0, 5.0], [100.0, 100.0], 60.0), ([80.0, 20.0], [0.0, 0.0], [50.0, 1000.0], 100.0)]
+    bad, tried = [], []
+    for cur, lo, hi, total in cases:
+        class _Instr:
+            pass
+
+        instr = _Instr()
+        instr.alloc = {"a": au.TimeSeries([2020.0, 2030.0], [cur[0], 1.0]), "b": au.TimeSeries([2020.0, 2030.0], [cur[1], 2.0])}
+        hc = {"programs": {2020.0: ["a", "b"]}, "bounds": {2020.0: {"a": (lo[0], hi[0]), "b": (lo[1], hi[1])}}, "initial_total_spend": {2020.0: total}}
+        c = ao.TotalSpendConstraint()
+        case = dict(spending=cur, lower=lo, upper=hi, total=total)
+        try:
+            with np.errstate(all="ignore"):
+                c.constrain_instructions(instr, hc, None)
+        except (ao.FailedConstraint, AssertionError) as e:
+            case["outcome"] = "signalled %s" % type(e).__name__
+            tried.append(case)
+            continue
+        except Exception as e:
+            case["outcome"] = "raised %s: %s" % (type(e).__name__, e)
+            tried.append(case)
+            bad.append("real code raised %s: %s for %r" % (type(e).__name__, e, case))
+            continue
+        after = [float(instr.alloc[p].get(2020.0)) for p in ("a", "b")]
+        case["spending_after"] = after
+        tried.append(case)
+        tol = 1e-8 + 1e-5 * abs(total)
+        for i, p in enumerate(("a", "b")):
+            if after[i] < lo[i] - tol or after[i] > hi[i] + tol:
+                bad.append("program %s ends at %r outside [%r, %r] (proposal %r, total %r)" % (p, after[i], lo[i], hi[i], cur, total))
+        if abs(sum(after) - total) > tol:
+            bad.append("amounts add up to %r, required total %r (proposal %r)" % (sum(after), total, cur))
+        if float(instr.alloc["a"].get(2030.0)) != 1.0 or float(instr.alloc["b"].get(2030.0)) != 2.0:
+            bad.append("spending of another year was changed")
+    return dict(verdict="violates" if bad else "holds", detail="; ".join(bad[:3]) or "every proposal ends within its bounds on the total (or is refused)", prestate=dict(cases=tried))
+
+
+CONTRACTS["optimization:TotalSpendConstraint.constrain_instructions#one_year_two_programs"]["replay_hook"] = _replay_constrain
